@@ -250,6 +250,9 @@ func (g *ysonGen) value(depth int) interface{} {
 		case 1:
 			return (r.Int63n(1<<20) - 1<<19) << uint(r.Intn(43)) // few significant bits: exactly representable
 		}
+		if r.Intn(3) == 0 {
+			return pick(r, unsafeLongs) // repaired by the UseNumber fix: must survive
+		}
 		return pick(r, safeLongs)
 	case x < 51:
 		b := make([]byte, r.Intn(8))
@@ -262,6 +265,9 @@ func (g *ysonGen) value(depth int) interface{} {
 		case 0, 1, 2:
 			return yson.Counter{Type: crdt.IntegerCnt, Value: pick(r, ints)}
 		case 3, 4:
+			if r.Intn(3) == 0 {
+				return yson.Counter{Type: crdt.LongCnt, Value: pick(r, unsafeLongs)}
+			}
 			return yson.Counter{Type: crdt.LongCnt, Value: pick(r, safeLongs)}
 		case 5:
 			return yson.Counter{Type: crdt.LongCnt, Value: r.Int63n(1<<53) - 1<<52}
